@@ -318,6 +318,8 @@ fn probe_spec(id: u64, w: &FaultWorld, gate: Option<String>) -> ReqSpec {
         pending_every: 0,
         headers,
         resp_chunk: 0,
+        unsized_body: id % 2 == 1,
+        http10: false,
     }
 }
 
